@@ -219,7 +219,7 @@ Fixpoint all_finite (l : list xnum) : option (list Q) :=
   end.
 
 (** initial composition: one 100 % component per non-empty real well.
-    [wells]: the real well ids in row-major order; [multi]: more than one real row *)
+    [wells]: the real well ids in row-major order; [multi]: more than one real well (rows * columns > 1) *)
 Fixpoint initial_composition (name : string) (multi : bool) (n : nat)
     (names : list (string * option string)) (ws : list string) (vols : list Q) (i : nat)
     (acc : list (string * list Q)) : res (list (string * list Q)) :=
@@ -290,7 +290,7 @@ Definition mk_labware (a : lw_args) : res labware :=
                           then Err EValue
                           else
                             let vs' := map Qred vs in
-                            match initial_composition (a_name a) (1 <? rows)%nat (rows * cols)
+                            match initial_composition (a_name a) (1 <? rows * cols)%nat (rows * cols)
                                     (a_names a) real_ids vs' 0 [] with
                             | Err e => Err e
                             | Ok comp =>
